@@ -109,6 +109,16 @@ func genFor(prop, tier string, seed int64) {
 				runMutations(tier, seed+1000*k, all10, false)
 			}
 		}
+	case "C08":
+		runListCover(tier, seed)
+		runListSource()
+	case "C09":
+		runGates(tier, seed)
+	case "C14":
+		runRobust(tier, seed)
+		runStrings(-300, 300)
+	case "C16":
+		runStrings(-70000, 70000)
 	default:
 		fatal("gen: unknown property", prop)
 	}
